@@ -2,6 +2,8 @@ package main
 
 import (
 	"fmt"
+	"go/constant"
+	"go/token"
 	"go/types"
 	"strings"
 
@@ -25,7 +27,190 @@ func (c *Ctx) invEval(fr *Frame, st *State, header *ssa.BasicBlock, phis map[*ss
 
 func (c *Ctx) entryFor(fr *Frame) *State { return c.entry }
 
+// autoInvariants: for a header phi `i = phi [E, i + K]` with a positive (negative) constant K the fact
+// i >= E (i <= E) is inductive; it is asserted at the back edge and assumed at the header like a written
+// invariant, so it is checked, not trusted (overflow of i + K would make the back-edge assertion fail).
+func (c *Ctx) autoInvariants(fr *Frame, li *loopInfo, st *State, phis map[*ssa.Phi]Val) []string {
+	var out []string
+	for _, ins := range li.header.Instrs {
+		phi, ok := ins.(*ssa.Phi)
+		if !ok {
+			break
+		}
+		if !isIntLike(phi.Type()) {
+			continue
+		}
+		var entry ssa.Value
+		dir := 0
+		stepK := int64(0)
+		okShape := true
+		for pi, p := range li.header.Preds {
+			e := phi.Edges[pi]
+			if li.blocks[p] {
+				bo, isBin := e.(*ssa.BinOp)
+				if !isBin || bo.X != ssa.Value(phi) {
+					okShape = false
+					break
+				}
+				k, isC := bo.Y.(*ssa.Const)
+				if !isC || k.Value == nil {
+					okShape = false
+					break
+				}
+				kv, exact := constantInt64(k)
+				if !exact || kv == 0 {
+					okShape = false
+					break
+				}
+				d := 1
+				if kv < 0 {
+					d = -1
+				}
+				stepK = kv
+				if bo.Op == token.SUB {
+					d = -d
+					stepK = -kv
+				} else if bo.Op != token.ADD {
+					okShape = false
+					break
+				}
+				if dir != 0 && dir != d {
+					okShape = false
+					break
+				}
+				dir = d
+			} else {
+				if entry != nil && entry != e {
+					okShape = false
+					break
+				}
+				entry = e
+			}
+		}
+		if !okShape || entry == nil || dir == 0 {
+			continue
+		}
+		if _, isConst := entry.(*ssa.Const); !isConst {
+			if _, has := fr.vals[entry]; !has {
+				continue
+			}
+		}
+		ev := c.operand(fr, entry, st)
+		var cur string
+		if phis != nil {
+			if v, ok := phis[phi]; ok {
+				cur = c.term(v)
+			}
+		}
+		if cur == "" {
+			if v, ok := fr.vals[phi]; ok {
+				cur = c.term(v)
+			} else {
+				continue
+			}
+		}
+		et := c.term(ev)
+		if dir > 0 {
+			out = append(out, fmt.Sprintf("(>= %s %s)", cur, et))
+		} else {
+			out = append(out, fmt.Sprintf("(<= %s %s)", cur, et))
+		}
+		// bound from the loop guard in the header: `phi (+K0) < Y` with Y loop-invariant, exit on false
+		if b := c.guardBound(fr, li, st, phi, dir, stepK); b != "" {
+			if dir > 0 {
+				out = append(out, fmt.Sprintf("(<= %s (ite (>= %s %s) %s %s))", cur, et, b, et, b))
+			} else {
+				out = append(out, fmt.Sprintf("(>= %s (ite (<= %s %s) %s %s))", cur, et, b, et, b))
+			}
+		}
+	}
+	return out
+}
+
+// guardBound returns the largest (smallest) value the induction variable can take after an iteration,
+// derived from the header's exit test, or "".
+func (c *Ctx) guardBound(fr *Frame, li *loopInfo, st *State, phi *ssa.Phi, dir int, k int64) string {
+	h := li.header
+	iff, ok := h.Instrs[len(h.Instrs)-1].(*ssa.If)
+	if !ok || len(h.Succs) != 2 || !li.blocks[h.Succs[0]] || li.blocks[h.Succs[1]] {
+		return ""
+	}
+	bo, ok := iff.Cond.(*ssa.BinOp)
+	if !ok {
+		return ""
+	}
+	// X = phi or phi + K0 (computed in the header)
+	k0 := int64(0)
+	switch x := bo.X.(type) {
+	case *ssa.Phi:
+		if x != phi {
+			return ""
+		}
+	case *ssa.BinOp:
+		if x.X != ssa.Value(phi) || x.Block() != h {
+			return ""
+		}
+		kc, isC := x.Y.(*ssa.Const)
+		if !isC {
+			return ""
+		}
+		v, exact := constantInt64(kc)
+		if !exact {
+			return ""
+		}
+		switch x.Op {
+		case token.ADD:
+			k0 = v
+		case token.SUB:
+			k0 = -v
+		default:
+			return ""
+		}
+	default:
+		return ""
+	}
+	// Y loop-invariant
+	switch y := bo.Y.(type) {
+	case *ssa.Const, *ssa.Parameter:
+	case ssa.Instruction:
+		if li.blocks[y.Block()] {
+			return ""
+		}
+		if _, has := fr.vals[bo.Y]; !has {
+			return ""
+		}
+	default:
+		return ""
+	}
+	if !isIntLike(bo.Y.Type()) {
+		return ""
+	}
+	yt := c.term(c.operand(fr, bo.Y, st))
+	// guard true: phi + k0 OP Y ; next = phi + k
+	switch {
+	case dir > 0 && bo.Op == token.LSS: // phi < Y - k0  => next <= Y - k0 + k - 1
+		return fmt.Sprintf("(+ %s %d)", yt, -k0+k-1)
+	case dir > 0 && bo.Op == token.LEQ:
+		return fmt.Sprintf("(+ %s %d)", yt, -k0+k)
+	case dir < 0 && bo.Op == token.GTR: // phi > Y - k0 => next >= Y - k0 + k + 1   (k negative)
+		return fmt.Sprintf("(+ %s %d)", yt, -k0+k+1)
+	case dir < 0 && bo.Op == token.GEQ:
+		return fmt.Sprintf("(+ %s %d)", yt, -k0+k)
+	}
+	return ""
+}
+
+func constantInt64(k *ssa.Const) (int64, bool) {
+	if k.Value == nil || k.Value.Kind() != constant.Int {
+		return 0, false
+	}
+	return constant.Int64Val(k.Value)
+}
+
 func (c *Ctx) checkInvariants(fr *Frame, li *loopInfo, st *State, reach string, phis map[*ssa.Phi]Val, kind string, header *ssa.BasicBlock) {
+	for i, inv := range c.autoInvariants(fr, li, st, phis) {
+		c.oblige("POST", fmt.Sprintf("INV.auto.%s.loop%d.%d", kind, li.ordinal, i+1), header.Instrs[0].Pos(), reach, inv, "inferred induction-variable bound")
+	}
 	ls := c.loopSpec(fr, li)
 	if ls == nil {
 		return
@@ -43,6 +228,9 @@ func (c *Ctx) checkInvariants(fr *Frame, li *loopInfo, st *State, reach string, 
 }
 
 func (c *Ctx) assumeInvariants(fr *Frame, li *loopInfo, st *State, reach string) {
+	for _, inv := range c.autoInvariants(fr, li, st, nil) {
+		c.assume(reach, inv)
+	}
 	ls := c.loopSpec(fr, li)
 	if ls == nil {
 		return
@@ -169,6 +357,12 @@ func (c *Ctx) run() {
 				continue
 			}
 			c.track["t."+tr.Text] = tv.T
+			if ev.sortOf(tv) == "Int" && !isRefLikeT(tv.Typ) {
+				if c.trackSmall == nil {
+					c.trackSmall = map[string]bool{}
+				}
+				c.trackSmall["t."+tr.Text] = true
+			}
 		}
 	}
 	// vacuity guard: the precondition together with the background must be satisfiable
@@ -297,3 +491,5 @@ func describeMods(ms *ModSet) string {
 	}
 	return out
 }
+
+func isRefLikeT(t types.Type) bool { return t != nil && isRefLike(t) }
